@@ -72,9 +72,9 @@ def run_cmp(cases, res):
             for name, k in (('py', num), ('np.float64', np.float64(num)), ('np.int64', np.int64(num)) if isinstance(num, int) else ('np.float32', np.float32(num) if float(np.float32(num)) == float(num) else np.float64(num))):
                 rs = (k < x, k <= x, k == x, k != x, k > x, k >= x)
                 gotl[name] = [bool(np.asarray(r).reshape(-1)[0]) for r in rs]
-            # the comparison functions of NumPy called by name (default array_op_method: they compute on the values): a truth value, the same one
+            # the comparison functions of NumPy called by name: a truth value, the same one (values are compared, never raw codes, in both settings of array_op_method)
             gotu = None
-            if c.get('array_op_method', 'repr') == 'repr':
+            if True:
                 UF = (np.less, np.less_equal, np.equal, np.not_equal, np.greater, np.greater_equal)
                 ru = [u(x, y) for u in UF]; rk = [u(x, num) for u in UF]
                 if any(isinstance(r, fx.Fxp) for r in ru + rk):
